@@ -297,7 +297,11 @@ fn c03_round<K: lasso::Key + std::hash::Hash + Send + Sync + 'static>(
                 // near the end of the key space: new strings that several threads ask for at the same moment
                 let near_end = capacity.map(|c| (j + 1) * threads + 48 >= c).unwrap_or(false);
                 let s = if near_end && r.chance(1, 2) {
-                    format!("late-{}", r.below(64))
+                    // long strings: hashing them keeps the caller between its lookup and whatever comes next for a while
+                    let n = r.below(64);
+                    let mut l = format!("late-{n}-");
+                    l.extend(std::iter::repeat('x').take(if n % 2 == 0 { 48 * 1024 } else { 0 }));
+                    l
                 } else if r.chance(1, 3) {
                     format!("shared-{}", r.below(shared as u64))
                 } else {
@@ -400,7 +404,7 @@ fn c03_round<K: lasso::Key + std::hash::Hash + Send + Sync + 'static>(
                 // key in use, so it can never be interned afterwards - and had it been interned before, the call
                 // had to return its key
                 if fails.len() < 20 {
-                    fails.push(format!("ORACLE C07 refused-although-interned: a call interning {s:?} was refused, yet the string holds key {} ({ctx})", by_string[s.as_str()]));
+                    fails.push(format!("ORACLE C07 refused-although-interned: a call interning {} was refused, yet the string holds key {} ({ctx})", cut(s), by_string[s.as_str()]));
                 }
                 continue;
             }
